@@ -11,10 +11,11 @@ import tempfile
 
 from harness import core, gen, histcheck, isoapi
 
-LEAN_MODULES = ['Pycdlib.Props.C01', 'Pycdlib.Props.C01Tree']
+LEAN_MODULES = ['Pycdlib.Props.C01', 'Pycdlib.Props.C01Tree', 'Pycdlib.Props.C01Extents']
 THEOREMS = ['Pycdlib.Spec.rmFile_exact', 'Pycdlib.Spec.rmFile_releases', 'Pycdlib.Spec.rmLink_local',
             'Pycdlib.Spec.gc_referenced', 'Pycdlib.Spec.addFp_visible', 'Pycdlib.Spec.run_none_of_step_none',
-            'Pycdlib.Spec.history_is_forest', 'Pycdlib.Spec.entry_unique']
+            'Pycdlib.Spec.history_is_forest', 'Pycdlib.Spec.entry_unique',
+            'Pycdlib.Extents.addFile_in_order', 'Pycdlib.Extents.old_rule_three_extents']
 PARTIAL = {
     'C01_fidelity_partial': 'the refinement pycdlib-model ⊑ Spec and Reader∘Master = abs are proved for the ISO9660/Joliet edit-state '
     'model of Props/C04 only (sizes/extents), not yet at byte level; the byte-level statement is decided by running the '
@@ -229,11 +230,46 @@ def run_directed(ctx, force, focus, post, reopen_every, tmpdir):
                     pass
 
 
+def extents_corr(ctx):
+    """correspondence for Model/Extents.addChild (theorem addFile_in_order): DirectoryRecord._add_child with
+    allow_duplicate, as _add_fp and the parser use it for the extents of a file, on real records"""
+    import pycdlib
+    from pycdlib import dr
+    rng = ctx.rng
+    seqs = [[5, 5, 5], [5, 5, 5, 5, 5], [3, 5, 5, 5, 7], [5, 3, 5, 7, 5, 5, 3]]
+    for _ in range(60 if ctx.quick else 600):
+        seqs.append([rng.choice([1, 2, 2, 3, 3, 3, 4]) for _ in range(rng.randint(1, 12))])
+    impl = []
+    for ids in seqs:
+        iso = pycdlib.PyCdlib()
+        iso.new(interchange_level=3)
+        root = iso.pvd.root_directory_record()
+        tags = {}
+        try:
+            for tag, i in enumerate(ids):
+                r = dr.DirectoryRecord()
+                r.new_file(iso.pvd, 10, b'F%03d.;1' % i, root, 1, '', b'', False, 0o100444, 0.0)
+                tags[id(r)] = tag
+                root._add_child(r, 2048, True, False)
+            impl.append(' '.join('%d.%d.%d.%d' % (int(c.file_ident[1:4]), tags[id(c)], (c.file_flags >> 7) & 1, 1 if c.data_continuation is not None else 0)
+                                 for c in root.children[2:]))
+        except Exception as e:  # noqa
+            impl.append('raised:%s' % isoapi.exc_class(e))
+        iso.close()
+    model = ctx.driver.ask(['addchild ' + ' '.join(str(i) for i in ids) for ids in seqs])
+    for ids, a, b in zip(seqs, impl, model):
+        ctx.count(key=('addchild', tuple(ids)), nontrivial=len(set(ids)) < len(ids), kind='addchild:%d-extent-max' % max(ids.count(x) for x in ids))
+        if a != b:
+            ctx.disagree('S-dr/addchild', 'records after adding %s: impl=%s model=%s' % (ids, a, b), {'kind': 'addchild', 'ids': ids})
+    ctx.traces_validated += len(seqs)
+
+
 def big_cases(ctx):
     """files larger than one directory record can describe (> 0xfffff800 bytes: multi-extent in ISO9660 and Joliet),
     mastered into a sparse in-memory image and read back under every name"""
     from harness import bigfile
     bigfile.big_case(ctx, 'C01', {'joliet': 3}, 0xfffff800 + 5000, 'two-extents')
+    bigfile.big_case(ctx, 'C01', {'rock_ridge': '1.09', 'joliet': 3}, 2 * 0xfffff800 + 17, 'three-extents-rr-joliet')
     if not ctx.quick:
         bigfile.big_case(ctx, 'C01', {'rock_ridge': '1.09', 'udf': '2.60'}, 2 * 0xfffff800 + 17, 'three-extents-rr-udf', udf_check=True)
         bigfile.big_case(ctx, 'C01', {}, 0xfffff800, 'exactly-one-extent')
@@ -247,6 +283,7 @@ def run(ctx, force=None, focus='C01', n_quick=600, n_thorough=8000, post=None, r
             run_directed(ctx, force, focus, post, reopen_every, tmpdir)
         if focus == 'C01' and not reopen_every:
             big_cases(ctx)
+            extents_corr(ctx)
         for k in range(n):
             seed = ctx.rng.randrange(2 ** 62)
             rng = random.Random(seed)
@@ -279,6 +316,9 @@ def replay(ctx, obj, focus='C01', post=None):
     if r.get('kind') == 'bigfile':
         big_cases(ctx)
         return [v['signature'] for v in ctx.violations]
+    if r.get('kind') == 'addchild':
+        extents_corr(ctx)
+        return ['disagreement' for _ in ctx.disagreements]
     tmpdir = tempfile.mkdtemp(prefix='verif-replay-')
     try:
         c = histcheck.build_case(ctx, random.Random(1), r['cfg'], 0, tmpdir, ops=r['ops'])
